@@ -6,12 +6,12 @@ cd /verif
 SNAP=$(mktemp /tmp/gtcheck.snap.XXXXXX); cp bin/gtcheck $SNAP; chmod +x $SNAP; export GTCHECK_BIN=$SNAP; trap "rm -f $SNAP" EXIT
 VERB=0; [ "$1" = "-v" ] && { VERB=1; shift; }
 PROPS=$(python3 -c "import json;print(' '.join(c['property_id'] for c in json.load(open('MANIFEST.json'))['checks']))")
-LIST="$@"; [ -z "$LIST" ] && LIST=$(ls selftest/refactors)
+CORPUS="${CORPUS:-selftest/refactors}"; LIST="$@"; [ -z "$LIST" ] && LIST=$(ls $CORPUS)
 one() {
   r=$1
   W=$(mktemp -d /tmp/refrun.XXXXXX)
   git -C /repo archive HEAD | tar -x -C $W
-  if ! (cd $W && patch -p1 -s < /verif/selftest/refactors/$r/patch.diff); then echo "$r: PATCH FAILED"; rm -rf $W; return; fi
+  if ! (cd $W && patch -p1 -s < /verif/$CORPUS/$r/patch.diff); then echo "$r: PATCH FAILED"; rm -rf $W; return; fi
   hits=""
   for p in $PROPS; do
     out=$(GTCHECK_REPO=$W GTCHECK_EVIDENCE=$W/.ev ./run.sh $p quick 2>&1); rc=$?
@@ -24,5 +24,5 @@ one() {
   echo "$r: alarms:${hits:- none}"
   rm -rf $W
 }
-export -f one; export PROPS VERB
+export -f one; export PROPS VERB CORPUS
 printf '%s\n' $LIST | xargs -P 8 -I{} bash -c 'one {}' | sort
